@@ -37,6 +37,8 @@ def set (c : O20) (abv value : Bytes) : O20 × Go.Err :=
   | (a0, a1, a2, a3, e) => (⟨a0, a1, a2, a3⟩, e)
 def vector (c : O20) : Bytes := GenV20.Vector c.u0 c.u1 c.u2 c.u3
 def lenVec (c : O20) : Nat := GenV20.lenVec c.u0 c.u1 c.u2 c.u3
+/-- the capacity `Vector()` gives its buffer (`make([]byte, 0, ·)`), as the code computes it -/
+def vectorCap (c : O20) : Nat := GenV20.Vector_cap c.u0 c.u1 c.u2 c.u3
 def baseScore (c : O20) : Nat := GenV20.BaseScore c.u0 c.u1 c.u2 c.u3
 def temporalScore (c : O20) : Nat := GenV20.TemporalScore c.u0 c.u1 c.u2 c.u3
 def environmentalScore (c : O20) : Nat := GenV20.EnvironmentalScore c.u0 c.u1 c.u2 c.u3
@@ -60,6 +62,8 @@ def set (c : O30) (abv value : Bytes) : O30 × Go.Err :=
   | (a0, a1, a2, a3, a4, a5, e) => (⟨a0, a1, a2, a3, a4, a5⟩, e)
 def vector (c : O30) : Bytes := GenV30.Vector c.u0 c.u1 c.u2 c.u3 c.u4 c.u5
 def lenVec (c : O30) : Nat := GenV30.lenVec c.u0 c.u1 c.u2 c.u3 c.u4 c.u5
+/-- the capacity `Vector()` gives its buffer (`make([]byte, 0, ·)`), as the code computes it -/
+def vectorCap (c : O30) : Nat := GenV30.Vector_cap c.u0 c.u1 c.u2 c.u3 c.u4 c.u5
 def baseScore (c : O30) : Nat := GenV30.BaseScore c.u0 c.u1 c.u2 c.u3 c.u4 c.u5
 def temporalScore (c : O30) : Nat := GenV30.TemporalScore c.u0 c.u1 c.u2 c.u3 c.u4 c.u5
 def environmentalScore (c : O30) : Nat := GenV30.EnvironmentalScore c.u0 c.u1 c.u2 c.u3 c.u4 c.u5
@@ -83,6 +87,8 @@ def set (c : O31) (abv value : Bytes) : O31 × Go.Err :=
   | (a0, a1, a2, a3, a4, a5, e) => (⟨a0, a1, a2, a3, a4, a5⟩, e)
 def vector (c : O31) : Bytes := GenV31.Vector c.u0 c.u1 c.u2 c.u3 c.u4 c.u5
 def lenVec (c : O31) : Nat := GenV31.lenVec c.u0 c.u1 c.u2 c.u3 c.u4 c.u5
+/-- the capacity `Vector()` gives its buffer (`make([]byte, 0, ·)`), as the code computes it -/
+def vectorCap (c : O31) : Nat := GenV31.Vector_cap c.u0 c.u1 c.u2 c.u3 c.u4 c.u5
 def baseScore (c : O31) : Nat := GenV31.BaseScore c.u0 c.u1 c.u2 c.u3 c.u4 c.u5
 def temporalScore (c : O31) : Nat := GenV31.TemporalScore c.u0 c.u1 c.u2 c.u3 c.u4 c.u5
 def environmentalScore (c : O31) : Nat := GenV31.EnvironmentalScore c.u0 c.u1 c.u2 c.u3 c.u4 c.u5
@@ -106,6 +112,8 @@ def set (c : O40) (abv value : Bytes) : O40 × Go.Err :=
   | (a0, a1, a2, a3, a4, a5, a6, a7, a8, e) => (⟨a0, a1, a2, a3, a4, a5, a6, a7, a8⟩, e)
 def vector (c : O40) : Bytes := GenV40.Vector c.u0 c.u1 c.u2 c.u3 c.u4 c.u5 c.u6 c.u7 c.u8
 def lenVec (c : O40) : Nat := GenV40.lenVec c.u0 c.u1 c.u2 c.u3 c.u4 c.u5 c.u6 c.u7 c.u8
+/-- the capacity `Vector()` gives its buffer (`make([]byte, 0, ·)`), as the code computes it -/
+def vectorCap (c : O40) : Nat := GenV40.Vector_cap c.u0 c.u1 c.u2 c.u3 c.u4 c.u5 c.u6 c.u7 c.u8
 def score (c : O40) : Nat := GenV40.Score c.u0 c.u1 c.u2 c.u3 c.u4 c.u5 c.u6 c.u7 c.u8
 def nomenclature (c : O40) : Bytes := GenV40.Nomenclature c.u0 c.u1 c.u2 c.u3 c.u4 c.u5 c.u6 c.u7 c.u8
 end O40
